@@ -187,8 +187,10 @@ def model_iso(model, describe_undefined=()):
         fns.append((
             "F", fid, f.name, f.domain, f.overload, _none_if_empty(f.doc_string), _md(f.metadata_props), _md(f.opset_imports),
             tuple(I2.attr_desc(a, ("fnattr",)) if a.value is not None or a.is_ref() else (a.name, "nodefault") for a in f.attributes.values()),
-            tuple(I2.value_desc(v) if model.ir_version >= 10 else v.name for v in f.inputs),
-            tuple(I2.node_desc(n, ("fn",), ni) if model.ir_version >= 10 else _strip_value_info(I2.node_desc(n, ("fn",), ni)) for ni, n in enumerate(f)),
+            # (below IR version 10 a FunctionProto has no value_info field; the library keeps the information in the main
+            # graph's value_info under "{domain}::{function}/{value}", so it survives a round trip all the same)
+            tuple(I2.value_desc(v) for v in f.inputs),
+            tuple(I2.node_desc(n, ("fn",), ni) for ni, n in enumerate(f)),
             tuple(I2.ref(v) for v in f.outputs),
         ))
     cfgs = ()
